@@ -210,7 +210,10 @@ where
         let old_index = insert(ctx.state_mut(), index_ident, index.into());
         let old_value = insert(ctx.state_mut(), value_ident, cloned_value);
 
-        let result = (self.runner)(ctx);
+        let result = match (self.runner)(ctx) {
+            Ok(value) | Err(ExpressionError::Return { value, .. }) => Ok(value),
+            err @ Err(_) => err,
+        };
 
         // Restore the outer bindings of the closure parameters before propagating a failure.
         cleanup(ctx.state_mut(), index_ident, old_index);
@@ -233,7 +236,10 @@ where
         let ident = self.ident(0);
         let old_key = insert(ctx.state_mut(), ident, cloned_key.into());
 
-        let result = (self.runner)(ctx);
+        let result = match (self.runner)(ctx) {
+            Ok(value) | Err(ExpressionError::Return { value, .. }) => Ok(value),
+            err @ Err(_) => err,
+        };
 
         // Restore the outer binding of the closure parameter before propagating a failure.
         cleanup(ctx.state_mut(), ident, old_key);
@@ -257,7 +263,10 @@ where
         let ident = self.ident(0);
         let old_value = insert(ctx.state_mut(), ident, cloned_value);
 
-        let result = (self.runner)(ctx);
+        let result = match (self.runner)(ctx) {
+            Ok(value) | Err(ExpressionError::Return { value, .. }) => Ok(value),
+            err @ Err(_) => err,
+        };
 
         // Restore the outer binding of the closure parameter before propagating a failure.
         cleanup(ctx.state_mut(), ident, old_value);
